@@ -138,7 +138,7 @@ Theorem C19_reply_too_big : forall (St Arg Rep : Type) (apply : St -> call Arg -
   loop (run apply too_big acts (init f sp p re ncl s0)) <> LDone RErrReply.
 Proof. exact @reply_ok_never_fails. Qed.
 
-(** Requests that exceed the size limit.  FULL STATEMENT (false on the current code, finding F12):
+(** Requests that exceed the size limit.  FULL STATEMENT (false on the current code, finding F14):
       forall acts cl, nth_error (clients (run ...)) cl <> Some ClPoisoned
     -- "an oversized request fails only that call".  The model refutes it: the client's request
     sender latches the send error, every later call through this client handle (and its clones
